@@ -58,19 +58,56 @@ def assignable (x : E) : Bool :=
 def isAssignLike (op : BOp) : Bool := op.prec == opAssign
 
 /-- node rewriter applied on entry of `minifyExpr`: `optimizeCondExpr` / `optimizeUnaryExpr` -/
-def optNode (v20 : Bool) (e : E) (p : Prec) : Option E :=
+def optNode (guarded : Bool) (v20 : Bool) (e : E) (p : Prec) : Option E :=
   match e with
-  | .cond c x y => optCond v20 c x y p
+  | .cond c x y => optCond guarded v20 c x y p
   | unary op x => some (optUnary op x p)
   | e => some e
 
-/-- the traversal of `minifyExpr` with node rewriter `rw` -/
-def minGen (rw : E → Prec → Option E) : Nat → E → Prec → Option E
-  | 0, _, _ => none
-  | fuel + 1, e, p =>
-    match rw e p with
-    | none => none
-    | some e1 =>
+/-- the binary expression proper of `minifyExpr`'s `BinaryExpr` case, `x1` being the left operand -/
+def binCore (rec : E → Prec → Option E) (op : BOp) (y : E) (x1 : E) : Option E :=
+  if op == .inOp || op == .instOf then
+    match rec x1 op.left, rec y op.right with
+    | some x', some y' => some (bin op x' y')
+    | _, _ => none
+  else
+    let e2 : BOp × E × E := match isUndefinedOrNullVar (bin op x1 y) with
+      | some (v, neg) => ((if neg then BOp.ne else BOp.eq), var v, lit .null)
+      | none => (op, x1, y)
+    let op2 := e2.1
+    let x2 := e2.2.1
+    let y2 := e2.2.2
+    let op3 : BOp :=
+      if (op2 == .seq || op2 == .sne) && ((isTypeof x2 && isStrLit y2) || (isTypeof y2 && isStrLit x2)) then
+        (if op2 == .seq then .eq else .ne)
+      else op2
+    match rec x2 op.left, rec y2 op3.right with
+    | some x', some y' => some (bin op3 x' y')
+    | _, _ => none
+
+/-- the list hoisted out of `(a,b)&&c` at statement level (`none`: no hoisting) -/
+def hoistList (op : BOp) (x : E) (p : Prec) : Option (List E) :=
+  if p ≤ opExpr then
+    match x with
+    | group (comma l) => if op.left ≤ (lastD l x).prec then some l else none
+    | _ => none
+  else none
+
+/-- a conditional directly inside a group is rewritten (at `OpExpr`) before the group is examined -/
+def groupInner (rw : E → Prec → Option E) (x : E) : Option E :=
+  match x with
+  | .cond c a b => rw (E.cond c a b) opExpr
+  | _ => some x
+
+/-- the literal cases of `!x`: `!"" → !0`, `!"s" → !1`, `!5 → !1` -/
+def notLit (x : E) : Option E :=
+  match x with
+  | lit (.str s) => some (unary .not (lit (.num (if s == "" then 0 else 1))))
+  | lit (.num n) => some (unary .not (lit (.num (if n == 0 then 0 else 1))))
+  | _ => none
+
+/-- one step of `minifyExpr` below the node rewriter: `rec` is the recursive call on the children -/
+def descend (rw : E → Prec → Option E) (rec : E → Prec → Option E) (e1 : E) (p : Prec) : Option E :=
     match e1 with
     | var n =>
       if n == "undefined" then some (if opMember < p then group undefIdx else undefIdx)
@@ -83,84 +120,66 @@ def minGen (rw : E → Prec → Option E) : Nat → E → Prec → Option E
     | bin op x y =>
       if mergesStrings op x y then none else
       if isAssignLike op && !assignable x then none else
-      -- the binary expression proper, `x1` being the left operand
-      let core : E → Option E := fun x1 =>
-        if op == .inOp || op == .instOf then
-          match minGen rw fuel x1 op.left, minGen rw fuel y op.right with
-          | some x', some y' => some (bin op x' y')
-          | _, _ => none
-        else
-          let e2 : BOp × E × E := match isUndefinedOrNullVar (bin op x1 y) with
-            | some (v, neg) => ((if neg then BOp.ne else BOp.eq), var v, lit .null)
-            | none => (op, x1, y)
-          let op2 := e2.1
-          let x2 := e2.2.1
-          let y2 := e2.2.2
-          let op3 : BOp :=
-            if (op2 == .seq || op2 == .sne) && ((isTypeof x2 && isStrLit y2) || (isTypeof y2 && isStrLit x2)) then
-              (if op2 == .seq then .eq else .ne)
-            else op2
-          match minGen rw fuel x2 op.left, minGen rw fuel y2 op3.right with
-          | some x', some y' => some (bin op3 x' y')
-          | _, _ => none
       -- convert (a,b)&&c into a,b&&c at statement level: the last item becomes the left operand
-      let hoist : Option (List E) :=
-        if p ≤ opExpr then
-          match x with
-          | group (comma l) => if op.left ≤ (lastD l x).prec then some l else none
-          | _ => none
-        else none
-      match hoist with
+      match hoistList op x p with
       | some l =>
-        (match mapO (fun a => minGen rw fuel a opAssign) l.dropLast, core (lastD l x) with
+        (match mapO (fun a => rec a opAssign) l.dropLast, binCore rec op y (lastD l x) with
          | some init', some b' => some (comma (init' ++ [b']))
          | _, _ => none)
-      | none => core x
+      | none => binCore rec op y x
     | unary op x =>
       if (op == .postinc || op == .postdec || op == .preinc || op == .predec || op == .delete) && !assignable x then none
       else if op == .postinc || op == .postdec then
-        (minGen rw fuel x op.argPrec).map (unary op)
+        (rec x op.argPrec).map (unary op)
       else if op == .void && !hasSideEffects x then some undefIdx
       else
-        match op, x with
-        | .not, lit (.str s) => some (unary .not (lit (.num (if s == "" then 0 else 1))))
-        | .not, lit (.num n) => some (unary .not (lit (.num (if n == 0 then 0 else 1))))
-        | _, _ => (minGen rw fuel x op.argPrec).map (unary op)
+        match (if op == .not then notLit x else none) with
+        | some r => some r
+        | none => (rec x op.argPrec).map (unary op)
     | dot x name =>
       match x with
       | group (lit (.num n)) => if n < 1000 then some (dot (lit (.num n)) name) else none
-      | _ => (minGen rw fuel x (if opMember ≤ p then opMember else opCall)).map (fun x' => dot x' name)
+      | _ => (rec x (if opMember ≤ p then opMember else opCall)).map (fun x' => dot x' name)
     | index x y =>
-      match minGen rw fuel x (if p < opMember then opCall else opMember) with
+      match rec x (if p < opMember then opCall else opMember) with
       | none => none
       | some x' =>
         match y with
         | lit (.str s) =>
           if s != "" && s.toList.all Char.isAlpha then some (dot x' s)   -- a["b"] → a.b
-          else (minGen rw fuel y opExpr).map (index x')
-        | _ => (minGen rw fuel y opExpr).map (index x')
+          else (rec y opExpr).map (index x')
+        | _ => (rec y opExpr).map (index x')
     | group x =>
-      let x1o : Option E := match x with
-        | .cond c a b => rw (E.cond c a b) opExpr
-        | _ => some x
-      match x1o with
+      match groupInner rw x with
       | none => none
       | some x1 =>
         let pi := x1.prec
-        if p ≤ pi || (pi == opCoalesce && p == opBitOr) then minGen rw fuel x1 p
-        else (minGen rw fuel x1 opExpr).map group
+        if p ≤ pi || (pi == opCoalesce && p == opBitOr) then rec x1 p
+        else (rec x1 opExpr).map group
     | call f args =>
-      match minGen rw fuel f opCall, mapO (fun a => minGen rw fuel a opAssign) args with
+      match rec f opCall, mapO (fun a => rec a opAssign) args with
       | some f', some args' => some (call f' args')
       | _, _ => none
     | .cond c x y =>
-      match minGen rw fuel c opCoalesce, minGen rw fuel x opAssign, minGen rw fuel y opAssign with
+      match rec c opCoalesce, rec x opAssign, rec y opAssign with
       | some c', some x', some y' => some (E.cond c' x' y')
       | _, _, _ => none
-    | comma l => (mapO (fun a => minGen rw fuel a opAssign) l).map comma
+    | comma l => (mapO (fun a => rec a opAssign) l).map comma
+
+
+/-- the traversal of `minifyExpr` with node rewriter `rw` -/
+def minGen (rw : E → Prec → Option E) : Nat → E → Prec → Option E
+  | 0, _, _ => none
+  | fuel + 1, e, p =>
+    match rw e p with
+    | none => none
+    | some e1 => descend rw (minGen rw fuel) e1 p
 
 /-- the model of `minifyExpr` -/
-def minE (v20 : Bool) : Nat → E → Prec → Option E := minGen (optNode v20)
+def minE (v20 : Bool) : Nat → E → Prec → Option E := minGen (optNode false v20)
+
+/-- `minE` restricted to the inputs on which no open known finding applies (see `optCondN`) -/
+def minEG (v20 : Bool) : Nat → E → Prec → Option E := minGen (optNode true v20)
 
 /-- the printer alone: no `optimizeCondExpr`/`optimizeUnaryExpr` -/
 def printT : Nat → E → Prec → Option E := minGen (fun e _ => some e)
